@@ -98,6 +98,32 @@ class ScriptedStream(MersenneTwister):
         return v
 
 
+class StreamFault(Exception):
+    """Injected failure of the stream (a user stream that must be refilled, an
+    interrupted call)."""
+
+
+class FaultyStream(ScriptedStream):
+    """Fails once, at its k-th call, instead of delivering a number (the
+    underlying generator advances all the same)."""
+
+    def __init__(self, seed, plan=None, fail_at=0):
+        super().__init__(seed, plan)
+        self.fail_at = fail_at
+        self.failed = False
+
+    def next_float(self):
+        if not self.failed and self.calls == self.fail_at:
+            self.failed = True
+            self.calls += 1
+            if self._seam:
+                self._random._real.random()
+            else:
+                MersenneTwister.next_float(self)
+            raise StreamFault("stream failed at call %d" % self.fail_at)
+        return super().next_float()
+
+
 class ValueEqStream(ScriptedStream):
     """A stream type with value semantics (as a user RNG written as a dataclass
     has): two streams are equal when seed, script and position agree."""
@@ -319,6 +345,44 @@ def run_cell(name, params, plan, seed=7, n_draws=4):
                     "object that compares equal to the old one) the old stream went from "
                     "%d to %d uniforms and the new one from %d to %d"
                     % (name, used, sold.calls, used, snew.calls)), info
+    # fault: the stream fails once in the middle of a draw; the exception reaches
+    # the caller and leaves no trace: the next draw is that of a fresh instance on
+    # an identically positioned stream
+    for fail_at in (0, 1, 2, 3):
+        sf = FaultyStream(seed, plan, fail_at)
+        try:
+            df = build(name, params, sf)
+        except StreamFault:
+            continue
+        pos = None
+        for _ in range(n_draws + 2):
+            try:
+                df.draw()
+            except StreamFault:
+                pos = sf.calls
+                break
+            except Exception:
+                break
+        if pos is None:
+            continue
+        info["stream_faults"] = info.get("stream_faults", 0) + 1
+        try:
+            v_next = df.draw()
+        except Exception as e:
+            return ("draw-raised", "Dist%s(%s).draw() after a stream failure at uniform #%d "
+                    "raised %s: %s" % (name, params, fail_at, type(e).__name__, e)), info
+        used = sf.calls - pos
+        st_ = ScriptedStream(seed, plan)
+        while st_.calls < pos:
+            st_.next_float()
+        dt = build(name, params, st_)
+        v_twin = dt.draw()
+        if v_next != v_twin or st_.calls - pos != used:
+            return ("stream-fault-left-trace", "Dist%s(%s): the stream failed at uniform #%d "
+                    "in the middle of a draw; the next draw returned %r consuming %d "
+                    "uniforms, a fresh instance on an identically positioned stream draws %r "
+                    "consuming %d" % (name, params, fail_at, v_next, used, v_twin,
+                                      st_.calls - pos)), info
     # a shallow copy is another instance: re-pointing one of the two must not
     # redirect the other (which goes on exactly like a never-copied twin)
     import copy
@@ -521,6 +585,7 @@ def execute(case):
             f, info = run_cell(name, params, plan)
             n_eval += 1
             cnt["fault:extreme_uniform"] = cnt.get("fault:extreme_uniform", 0) + info["injected"]
+            cnt["fault:stream_failure"] = cnt.get("fault:stream_failure", 0) + info.get("stream_faults", 0)
             if info["injected"]:
                 digs.append(common.digest8([name, params, sorted(plan.items())]))
             if f:
@@ -539,6 +604,7 @@ def execute(case):
         f, info = run_cell(name, params, plan, seed=case.get("seed", 7), n_draws=12)
         n_eval = 1
         cnt["fault:extreme_uniform"] = info["injected"]
+        cnt["fault:stream_failure"] = info.get("stream_faults", 0)
         cnt["random_cells"] = 1
         if info["injected"]:
             digs.append(common.digest8([name, params, sorted(plan.items())]))
